@@ -64,3 +64,61 @@ func init() {
 		os.Exit(0)
 	}
 }
+
+func init() {
+	if len(os.Args) > 4 && os.Args[1] == "fx" {
+		p := Load(LoadOpts{Dir: repoDir(), Patterns: []string{"./..."}, ModPath: modPath, MinPkgs: 13})
+		fx := NewFX(p)
+		fx.Run()
+		f := p.Func(os.Args[2], os.Args[3], os.Args[4])
+		only := map[string]bool{}
+		for _, t := range os.Args[5:] {
+			only[t] = true
+		}
+		for i, fld := range fx.fields {
+			if !fx.exposed[f].has(i) {
+				continue
+			}
+			own := fx.owner[fld].Obj().Name()
+			if len(only) > 0 && !only[own] {
+				continue
+			}
+			fmt.Printf("EXPOSED %s.%s\n", own, fld.Name())
+			for _, l := range fx.ExposedPath(f, i) {
+				fmt.Println("     ", l)
+			}
+		}
+		fmt.Println("MUST:", len(fx.names(fx.must[f])))
+		os.Exit(0)
+	}
+}
+
+func init() {
+	if len(os.Args) > 3 && os.Args[1] == "leaves" {
+		p := Load(LoadOpts{Dir: repoDir(), Patterns: []string{"./..."}, ModPath: modPath, MinPkgs: 13})
+		fx := NewFX(p)
+		for _, i := range fx.leavesOf(p.Named(os.Args[2], os.Args[3]), 0) {
+			fmt.Println(fx.owner[fx.fields[i]].Obj().Name() + "." + fx.fields[i].Name())
+		}
+		os.Exit(0)
+	}
+}
+
+func init() {
+	if len(os.Args) > 4 && os.Args[1] == "fxevents" {
+		p := Load(LoadOpts{Dir: repoDir(), Patterns: []string{"./..."}, ModPath: modPath, MinPkgs: 13})
+		fx := NewFX(p)
+		f := p.Func(os.Args[2], os.Args[3], os.Args[4])
+		evs := fx.events(f)
+		for _, b := range f.Blocks {
+			for _, e := range evs[b] {
+				n := ""
+				if e.kind != 2 {
+					n = fx.owner[fx.fields[e.field]].Obj().Name() + "." + fx.fields[e.field].Name()
+				}
+				fmt.Printf("block %d kind %d %s extra=%d  %v @%s\n", b.Index, e.kind, n, len(e.extra), e.in, p.IPos(e.in))
+			}
+		}
+		os.Exit(0)
+	}
+}
